@@ -250,7 +250,7 @@ func main() {
 		os.Setenv("VERIF_C05_REPS", string(reps))
 	}
 	if r.Fork(16) {
-		r.Set("rule", "part 1: every reachable (scanner state, documented state) pair x all 1,114,112 code points; part 2: every text up to the length bound over one representative per symbol class (classes induced by both automata, refined by newline-ness and UTF-8 length), each with and without a final newline, plus curated near-misses in every gap of a token sequence; non-trivial = text yields >= 1 token or an error; distinct by text")
+		r.Set("rule", "part 1: every reachable (scanner state, documented state) pair x all 1,114,112 code points; part 2: every text up to the length bound over one representative per symbol class (classes induced by both automata, refined by newline-ness and UTF-8 length), each with and without a final newline, plus curated near-misses (a NUL character among them) in every gap of a token sequence, plus tokens of every kind with 4094 ... 20000 characters; non-trivial = text yields >= 1 token or an error; distinct by text")
 		r.Set("evaluations", r.Get("texts"))
 		r.Set("traces_validated_against_impl", r.Get("texts"))
 		r.Finish()
@@ -322,6 +322,30 @@ func main() {
 				text := strings.Join(base[:gap], " ") + sep + nm + sep + strings.Join(base[gap:], " ")
 				check(text, "near_miss")
 				check(text+"\n", "near_miss")
+			}
+		}
+	}
+	// tokens longer than the scanner's buffer half (4096) and than the whole buffer (8192): every kind that can be long
+	li := 0
+	for _, n := range []int{4094, 4095, 4096, 4097, 8190, 8191, 8192, 8193, 12289, 20000} {
+		for _, mk := range []func(n int) string{
+			func(n int) string { return strings.Repeat("a", n) },
+			func(n int) string { return "T" + strings.Repeat("K", n-1) },
+			func(n int) string { return `"` + strings.Repeat("s", n-2) + `"` },
+			func(n int) string { return `/` + strings.Repeat("p", n-2) + `/` },
+			func(n int) string { return `/*` + strings.Repeat("c", n-4) + `*/` },
+			func(n int) string { return `//` + strings.Repeat("c", n-3) + "\n" },
+			func(n int) string { return `"` + strings.Repeat("s", n-1) },  // unterminated
+			func(n int) string { return `/*` + strings.Repeat("*", n-2) }, // unterminated
+			func(n int) string { return "$" + strings.Repeat("P", n-1) },
+		} {
+			li++
+			if !r.MineIdx(li) {
+				continue
+			}
+			long := mk(n)
+			for _, text := range []string{long, "grammar g ; x = " + long + " ;\n", long + long, "a " + long + "\n" + long + " b"} {
+				check(text, "long_tokens")
 			}
 		}
 	}
